@@ -206,6 +206,11 @@ pub fn main(tier: Tier, seed: u64) -> i32 {
         // non-trivial: expected output is not constant over the circuit's input assignments
         let ck = format!("{:?}", case.circ);
         let nt = *nontrivial_circuits.entry(ck).or_insert_with(|| {
+            if case.circ.total_inputs() > 16 {
+                // too many assignments to enumerate: compare with the complemented assignment
+                let flipped: Vec<Vec<bool>> = case.inputs.iter().map(|v| v.iter().map(|b| !b).collect()).collect();
+                return case.circ.eval(&flipped) != case.circ.eval(&case.inputs);
+            }
             let all = case.circ.all_inputs();
             let first = case.circ.eval(&all[0]);
             all.iter().any(|i| case.circ.eval(i) != first)
